@@ -16,7 +16,7 @@ func init() {
 		Run:   runC12,
 		Modes: []string{"deadlock"},
 		Meta: propMeta{
-			Explanation: "Only the clauses of the remaining containers that are visible in code shape, on all CFG paths: (1) every container with a mutex touches its state only under it (writes under the write lock; private helpers caller-holds), locks balanced, thread-safe stack decorator complete; (2) coupled state: TimeHeap heap<->total (Add, Clear, windowed removal), generalheap slot<->index, RandomMap rawMap<->keys<->keyIndex (insert appends with index = previous size, delete swaps the last key into the hole and truncates), BytesFilter known set<->FIFO slice (evict-oldest at capacity), Queue/RingBuffer cursor advance modulo capacity with size bookkeeping, SubscriptionManager per-client count<->global topic count (with the cleanup observer never run between the two), OnChangeMap change<->callback; (3) bulk operations do not exit early (Walker.PushAll/PushFront); (4) comparator directions (timeAscending/Descending, PopUntil bound, timeHeap.Less); (5) SubscriptionManager fires events only outside its lock.",
+			Explanation: "Only the clauses of the remaining containers that are visible in code shape, on all CFG paths: (1) every container with a mutex touches its state only under it (writes under the write lock; private helpers caller-holds), locks balanced, thread-safe stack decorator complete; (2) coupled state: TimeHeap heap<->total (Add, Clear, windowed removal), generalheap slot<->index, RandomMap rawMap<->keys<->keyIndex (insert appends with index = previous size, delete swaps the last key into the hole and truncates), BytesFilter known set<->FIFO slice (evict-oldest at capacity), Queue/RingBuffer cursor advance modulo capacity with size bookkeeping, SubscriptionManager per-client count<->global topic count (with the cleanup observer never run between the two), OnChangeMap change<->callback; (3) bulk operations do not exit early (Walker.PushAll/PushFront); (4) comparator directions (timeAscending/Descending, PopUntil bound, timeHeap.Less); (5) SubscriptionManager fires events only outside its lock. One Subscribe/Unsubscribe moves the global topic count by exactly one.",
 			NotDecided:  "observational equivalence with the abstract models over operation histories; randomness of RandomMap picks; shrinking thresholds",
 			Assumptions: []string{"container/heap, container/list behave as documented"},
 		},
